@@ -34,6 +34,11 @@ type Server struct {
 	lastCmd  time.Time
 	// Gate, when set, is called (without the lock) before a data command takes effect; it may block.
 	Gate  func(name, coll string)
+	// After, when set, is called (without the lock) after a data command took effect and before its answer is sent
+	After func(name, coll string)
+	// OnWrite, if set, is called under the store's mutex for every document an insert stored and every document an
+	// update or replacement produced: the order of the calls is the order in which the store applied the writes
+	OnWrite func(op, ns string, doc bson.D)
 	conns map[net.Conn]bool
 }
 
@@ -211,6 +216,10 @@ func (s *Server) serve(c net.Conn) {
 			resp := s.handle(db, cmd, seqs)
 			if len(resp) == 1 && resp[0].Key == "$dead" {
 				return // the database died: the connection drops without an answer
+			}
+			if a := s.After; a != nil && len(cmd) > 0 && IsData(cmd[0].Key) {
+				coll, _ := cmd[0].Value.(string)
+				a(cmd[0].Key, coll) // the command has taken effect; its answer may be held back
 			}
 			rb, err := bson.Marshal(resp)
 			if err != nil {
@@ -472,6 +481,9 @@ func (s *Server) handle(db string, cmd bson.D, seqs map[string][]bson.D) bson.D 
 			}
 			s.colls[ns] = append(s.colls[ns], d)
 			n++
+			if s.OnWrite != nil {
+				s.OnWrite("insert", ns, d)
+			}
 		}
 		if _, ok := s.colls[ns]; !ok {
 			s.colls[ns] = nil
@@ -531,6 +543,9 @@ func (s *Server) handle(db string, cmd bson.D, seqs map[string][]bson.D) bson.D 
 						nm++
 						s.colls[ns][j] = nd
 					}
+					if s.OnWrite != nil {
+						s.OnWrite("update", ns, nd)
+					}
 					break
 				}
 			}
@@ -546,6 +561,9 @@ func (s *Server) handle(db string, cmd bson.D, seqs map[string][]bson.D) bson.D 
 				}
 				nd := applyUpdate(base, toD(uv), true)
 				s.colls[ns] = append(s.colls[ns], nd)
+				if s.OnWrite != nil {
+					s.OnWrite("update", ns, nd)
+				}
 				id, _ := get(nd, "_id")
 				n++
 				upserted = append(upserted, bson.D{{Key: "index", Value: int32(i)}, {Key: "_id", Value: id}})
